@@ -65,7 +65,7 @@ def check(ctx):
     check_shapes(ctx, W1, ["acmed::hooks::PostOperationHookData", "acmed::hooks::ChallengeHookData", "acmed::hooks::FileStorageHookData", "acmed::storage::CertFileFormat"])
     R1 = ctx.rule("R1", "hooks::call: in slice order, filtered by type, one awaited call_single at a time, first error aborts")
     cb = prog.async_body(CALL)
-    its = [c for c in cb.calls_to("core::slice::<impl [T]>::iter") if arg_origins(c, 0).has_leaf("upvar:1")]
+    its = [c for c in cb.calls_to("core::slice::<impl [T]>::iter", "core::iter::traits::collect::IntoIterator::into_iter") if arg_origins(c, 0).has_leaf("upvar:1")]       # `hooks.iter()` / `for hook in hooks`
     cs = cb.calls_to(SINGLE)
     ctx.floor(R1, "iteration over the hooks parameter", len(its), 1)
     ctx.floor(R1, "call_single call", len(cs), 1)
